@@ -11,11 +11,15 @@
    with respect to the same map specification) and, step for step in sequential runs, by the
    C01/C06/C17 correspondence of the same logical machine. *)
 From GoSST Require Import Base.Bytes Db.Logical Db.Conc Db.ConcFacts.
+From Coq Require Import String.
 From GoSSTGen Require Import FactsCode.
 
 Theorem C05_lock_discipline :
   put_takes_write_lock = true /\ delete_takes_write_lock = true /\ get_takes_read_lock = true /\
-  get_tables_before_memstore = Some true /\ reflect_takes_db_lock_first = Some true.
+  get_tables_before_memstore = Some true /\ reflect_takes_db_lock_first = Some true /\
+  memstore_users = "DeleteBytes,GetBytes,PutBytes,replayAndSetupWriteAheadLog,swapMemstore"%string /\
+  memstore_swappers = "replayAndSetupWriteAheadLog,rotateWalAndFlushMemstore"%string /\
+  memstore_rotators = "Close,PutBytes"%string.
 Proof. exact lock_facts. Qed.
 
 Theorem C05_histories_linearizable :
